@@ -36,7 +36,7 @@ class C03(PropBase):
                     yield dict(directed=directed, removal=True, hist=h, family='int', functional=False, win=[(1, 3), (0, 0), (2, 9)])
 
     def n_random(self, tier):
-        return 800 if tier == 'quick' else 15000
+        return 800 if tier == 'quick' else 40000
 
     def random_cases(self, rnd, n):
         for _ in range(n):
